@@ -240,6 +240,7 @@ impl<'tcx> Cx<'tcx> {
                             s(self.path(*did)),
                             J::N(vi.index() as i128),
                             s(def.variant(*vi).name),
+                            J::A(def.variant(*vi).fields.iter().map(|f| s(f.name)).collect()),
                         ])
                     }
                     AggregateKind::Closure(did, _) => J::A(vec![s("closure"), s(self.path(*did))]),
